@@ -3,14 +3,18 @@
 package valset
 
 import (
+	"crypto/sha256"
 	"encoding/json"
 	"fmt"
+	"math/big"
 	"strings"
 	"testing"
 	"time"
 
 	sdk "github.com/cosmos/cosmos-sdk/types"
 	stakingtypes "github.com/cosmos/cosmos-sdk/x/staking/types"
+	gethcommon "github.com/ethereum/go-ethereum/common"
+	"github.com/ethereum/go-ethereum/crypto"
 	"github.com/palomachain/paloma/v2/util/eventbus"
 	evmtypes "github.com/palomachain/paloma/v2/x/evm/types"
 	valsettypes "github.com/palomachain/paloma/v2/x/valset/types"
@@ -32,24 +36,75 @@ type snapArgs struct {
 	Cs     []int   `json:"cs"`
 	A      int64   `json:"a"`
 	Dt     int64   `json:"dt"`
+	Reg    string  `json:"reg"`  // registration profile of the world: "all" (default) / "first" (first chain only)
+	Mode   string  `json:"mode"` // Rotate: "key" / "trait"
+	Bal    int64   `json:"bal"`
 }
+
+const maxKeyGen = 8
 
 type snapRun struct {
 	w      *stakeWorld
 	ctx    sdk.Context
 	now    int64
 	height int64
+	key    []int // key generation the driver registers for each validator (0 = the key of the world)
+	ntr    []int // number of traits the driver registers for each validator
+}
+
+// ethAddr returns the remote address of validator i (0-based) of key generation k.
+func (r *snapRun) ethAddr(i, k int) gethcommon.Address {
+	if k == 0 {
+		return r.w.e.Vals[i].EthAddr
+	}
+	key, err := crypto.ToECDSA(crypto.Keccak256([]byte(fmt.Sprintf("verif-val-eth-rot-%d-%d-%d", drv.Seed(), i, k))))
+	if err != nil {
+		panic(err)
+	}
+	return crypto.PubkeyToAddress(key.PublicKey)
+}
+
+func (r *snapRun) infos(i int, chains []string) []*valsettypes.ExternalChainInfo {
+	a := r.ethAddr(i, r.key[i])
+	traits := []string{}
+	for t := 1; t <= r.ntr[i]; t++ {
+		traits = append(traits, fmt.Sprintf("t%d", t))
+	}
+	out := []*valsettypes.ExternalChainInfo{}
+	for _, c := range chains {
+		out = append(out, &valsettypes.ExternalChainInfo{ChainType: "evm", ChainReferenceID: c, Address: a.Hex(), Pubkey: a.Bytes(), Traits: traits})
+	}
+	return out
+}
+
+// genOf reads the generation (key generation + number of traits) off an account list; -1 if there is none.
+func (r *snapRun) genOf(i int, infos []*valsettypes.ExternalChainInfo) int {
+	if len(infos) == 0 {
+		return -1
+	}
+	for k := 0; k <= maxKeyGen; k++ {
+		if strings.EqualFold(r.ethAddr(i, k).Hex(), infos[0].Address) {
+			return k + len(infos[0].Traits)
+		}
+	}
+	return 99
 }
 
 var snapWorlds = map[string]*stakeWorld{}
 
-func snapWorld(stakes []int64) *stakeWorld {
-	key := fmt.Sprint(stakes)
+func snapWorld(stakes []int64, reg string) *stakeWorld {
+	key := fmt.Sprint(stakes, reg)
 	if w, ok := snapWorlds[key]; ok {
 		return w
 	}
-	w := newStakeWorld(env.E1Options{Seed: drv.Seed(), Chains: chainNames, NoActive: true, Powers: stakes,
-		ValAddrs: orderedAddrs(len(stakes), drv.Seed())}, snapMaxVals, snapUnbond, 0)
+	o := env.E1Options{Seed: drv.Seed(), Chains: chainNames, NoActive: true, Powers: stakes, ValAddrs: orderedAddrs(len(stakes), drv.Seed())}
+	if reg == "first" { // nobody has an account on the other chains
+		o.NoChainInfo = map[int][]string{}
+		for i := range stakes {
+			o.NoChainInfo[i] = chainNames[1:]
+		}
+	}
+	w := newStakeWorld(o, snapMaxVals, snapUnbond, 0)
 	// several worlds live in this process: the skyway keeper of the newest one is the (package-global) subscriber of
 	// the chain-activation event and would be run on another world's stores; its reaction is not part of this subsystem
 	eventbus.EVMActivatedChain().Unsubscribe("skyway-keeper")
@@ -67,9 +122,11 @@ func (r *snapRun) chainIdx(name string) int {
 }
 
 func (r *snapRun) valByEth(addr string) int {
-	for i, v := range r.w.e.Vals {
-		if strings.EqualFold(v.EthAddr.Hex(), addr) {
-			return i + 1
+	for i := range r.w.e.Vals {
+		for k := 0; k <= maxKeyGen; k++ {
+			if strings.EqualFold(r.ethAddr(i, k).Hex(), addr) {
+				return i + 1
+			}
 		}
 	}
 	return 0
@@ -103,15 +160,29 @@ func (r *snapRun) snapObs(s *valsettypes.Snapshot) map[string]any {
 		}
 		var q, rem int
 		splitUnits(v.ShareCount, &q, &rem)
-		vals = append(vals, map[string]any{"v": r.valByAddr(v.Address), "share": q, "rem": rem, "accts": sortedInts(accts), "state": int(v.State)})
+		vi := r.valByAddr(v.Address)
+		g := 0
+		if vi > 0 && len(v.ExternalChainInfos) > 0 {
+			g = r.genOf(vi-1, v.ExternalChainInfos)
+		}
+		vals = append(vals, map[string]any{"v": vi, "share": q, "rem": rem, "accts": sortedInts(accts), "state": int(v.State), "gen": g})
 	}
+	// fingerprint of the COMPLETE stored record (addresses, pubkeys, balances, traits, shares, ...) except the list of chains
+	cp := *s
+	cp.Chains = nil
+	bz, err := r.w.e.Cdc.Marshal(&cp)
+	if err != nil {
+		panic(err)
+	}
+	sum := sha256.Sum256(bz)
 	var tq, trem int
 	splitUnits(s.TotalShares, &tq, &trem)
 	chains := []int{}
 	for _, c := range s.Chains {
 		chains = append(chains, r.chainIdx(c))
 	}
-	return map[string]any{"id": int(s.Id), "vals": vals, "total": tq, "trem": trem, "chains": chains, "at": int(s.CreatedAt.Unix() - r.w.base.Unix())}
+	return map[string]any{"id": int(s.Id), "vals": vals, "total": tq, "trem": trem, "chains": chains, "at": int(s.CreatedAt.Unix() - r.w.base.Unix()),
+		"fp": fmt.Sprintf("%x", sum[:8])}
 }
 
 func (r *snapRun) observe() map[string]any {
@@ -121,18 +192,20 @@ func (r *snapRun) observe() map[string]any {
 	jailed, status, stake, rem := r.w.stakingObs(ctx)
 	o["jailed"], o["status"], o["stake"], o["rem"] = jailed, status, stake, rem
 	accts := []any{}
-	for _, v := range e.Vals {
+	gens := []int{}
+	for i, v := range e.Vals {
 		infos, err := e.Valset.GetValidatorChainInfos(ctx, v.Val)
 		if err != nil {
 			panic(err)
 		}
+		gens = append(gens, r.genOf(i, infos))
 		m := map[int]bool{}
 		for _, ci := range infos {
 			m[r.chainIdx(ci.ChainReferenceID)] = true
 		}
 		accts = append(accts, sortedInts(m))
 	}
-	o["accts"] = accts
+	o["accts"], o["gen"] = accts, gens
 	act := map[int]bool{}
 	for _, c := range e.Evm.GetActiveChainNames(ctx) {
 		act[r.chainIdx(c)] = true
@@ -147,6 +220,12 @@ func (r *snapRun) observe() map[string]any {
 		curID = int(cur.Id)
 	}
 	o["cur"] = curID
+	// the same through the query path relayers use (snapshot id 0 = current)
+	curq := 0
+	if resp, err := e.Valset.GetSnapshotByID(ctx, &valsettypes.QueryGetSnapshotByIDRequest{SnapshotId: 0}); err == nil && resp.Snapshot != nil {
+		curq = int(resp.Snapshot.Id)
+	}
+	o["curq"] = curq
 	snaps := []any{}
 	miss := 0
 	for id := uint64(1); miss < 3; id++ { // every id ever issued, probing a little beyond the last one found
@@ -223,11 +302,47 @@ func (r *snapRun) step(s drv.Step) (res string, err error) {
 		err, _ = drv.Recover(func() error { return e.Evm.PublishSnapshotToAllChains(r.ctx, cur, a.Force) })
 	case "Register":
 		v := e.Vals[a.V-1]
-		infos := []*valsettypes.ExternalChainInfo{}
+		chains := []string{}
 		for _, c := range a.Cs {
-			infos = append(infos, &valsettypes.ExternalChainInfo{ChainType: "evm", ChainReferenceID: chainNames[c-1], Address: v.EthAddr.Hex(), Pubkey: v.EthAddr.Bytes()})
+			chains = append(chains, chainNames[c-1])
 		}
+		infos := r.infos(a.V-1, chains)
 		err, _ = env.RunMsg(r.ctx, func(c sdk.Context) error { return e.Valset.AddExternalChainInfo(c, v.Val, infos) })
+	case "Rotate":
+		// the relayer registers the same chains again with a rotated key / with another trait
+		v := e.Vals[a.V-1]
+		cur, e2 := e.Valset.GetValidatorChainInfos(r.ctx, v.Val)
+		if e2 != nil {
+			panic(e2)
+		}
+		chains := []string{}
+		for _, ci := range cur {
+			chains = append(chains, ci.ChainReferenceID)
+		}
+		oldK, oldT := r.key[a.V-1], r.ntr[a.V-1]
+		if a.Mode == "trait" {
+			r.ntr[a.V-1]++
+		} else {
+			r.key[a.V-1]++
+		}
+		infos := r.infos(a.V-1, chains)
+		err, _ = env.RunMsg(r.ctx, func(c sdk.Context) error { return e.Valset.AddExternalChainInfo(c, v.Val, infos) })
+		if err != nil {
+			r.key[a.V-1], r.ntr[a.V-1] = oldK, oldT
+		}
+	case "SetBalance":
+		// what x/evm does with an attested balance report
+		v := e.Vals[a.V-1]
+		addr := r.ethAddr(a.V-1, r.key[a.V-1]).Hex()
+		cur, _ := e.Valset.GetValidatorChainInfos(r.ctx, v.Val)
+		for _, ci := range cur {
+			if ci.ChainReferenceID == chainNames[a.C-1] {
+				addr = ci.Address
+			}
+		}
+		err, _ = env.RunMsg(r.ctx, func(c sdk.Context) error {
+			return e.Valset.SetValidatorBalance(c, v.Val, "evm", chainNames[a.C-1], addr, big.NewInt(a.Bal*1_000_000_000))
+		})
 	case "Activate":
 		c := chainNames[a.C-1]
 		err, _ = env.RunMsg(r.ctx, func(cc sdk.Context) error {
@@ -284,9 +399,9 @@ func TestDriveSnap(t *testing.T) {
 		}
 		var ia snapArgs
 		mustArgs(h.Steps[0], &ia)
-		w := snapWorld(ia.Stakes)
+		w := snapWorld(ia.Stakes, ia.Reg)
 		cctx, _ := w.e.Ctx.CacheContext()
-		r := &snapRun{w: w, ctx: cctx, height: w.e.Ctx.BlockHeight()}
+		r := &snapRun{w: w, ctx: cctx, height: w.e.Ctx.BlockHeight(), key: make([]int, len(w.e.Vals)), ntr: make([]int, len(w.e.Vals))}
 		em.Emit(map[string]any{"h": h.H, "i": 0, "act": "InitS", "args": json.RawMessage(h.Steps[0].Args), "res": "init", "err": "", "obs": r.observe(),
 			"maxvals": snapMaxVals, "unbond": int(snapUnbond / time.Second), "unit": unit, "nchains": len(chainNames)})
 		for i, s := range h.Steps[1:] {
